@@ -771,6 +771,24 @@ static void op_oracle(void)
         ev_int(&e, broken);
         free(anc.p);
     }
+    /* 11: getlogin_r as libc answers it in this state ("\x01ERRn" on failure) */
+    {
+        char lg[300];
+        int r = getlogin_r(lg, sizeof lg);
+        if (r == 0) ev_str(&e, lg); else { snprintf(t, sizeof t, "\x01" "ERR%d", r); ev_str(&e, t); }
+    }
+    /* 12: /proc/self/cgroup, 13: own kernel name, 14: stdin kind, 15: umask-free extras */
+    {
+        buf_t cg = {0};
+        if (read_file("/proc/self/cgroup", &cg) < 0) ev_str(&e, "\x01" "NOFILE"); else ev_field(&e, cg.p, cg.len);
+        free(cg.p);
+        char nm[32] = {0};
+        prctl(PR_GET_NAME, nm, 0, 0, 0);
+        ev_str(&e, nm);
+        struct stat sb;
+        if (fstat(0, &sb) < 0) ev_str(&e, "closed");
+        else ev_str(&e, S_ISCHR(sb.st_mode) ? "chr" : S_ISFIFO(sb.st_mode) ? "fifo" : S_ISREG(sb.st_mode) ? "reg" : "other");
+    }
     ev_end(&e); ev_free(&e);
 }
 
@@ -867,6 +885,22 @@ static void run_ops(op_t *ops, int nops)
             prctl(PR_SET_PDEATHSIG, SIGKILL);
             break; }
         case 'F': op_chain(ops, nops, i); return;
+        case 'n': { /* private UTS namespace + hostname */
+            char *h = dupz(op->a[0].p, op->a[0].len);
+            if (unshare(CLONE_NEWUTS) < 0) ev_error("unshare uts");
+            else if (sethostname(h, strlen(h)) < 0) ev_error("sethostname");
+            free(h); break; }
+        case 'o': { /* orphan: fork twice, the middle process exits, the grandchild (parent = init/subreaper) continues */
+            pid_t p = fork();
+            if (p < 0) { ev_error("fork"); break; }
+            if (p > 0) { int st; while (waitpid(p, &st, 0) < 0 && errno == EINTR) ; return; }
+            pid_t mid = getpid();
+            pid_t q = fork();
+            if (q < 0) { ev_error("fork2"); _exit(0); }
+            if (q > 0) _exit(0);
+            prctl(PR_SET_PDEATHSIG, 0);
+            for (int k = 0; k < 500 && getppid() == mid; k++) usleep(2000);   /* wait for reparenting */
+            break; }
         case 'Z': { /* threads: args: nthreads, barrier(0/1); followed by X ops carrying tno */
             int nt = arg_int(&op->a[0]), bar = arg_int(&op->a[1]);
             thr_t *th = calloc(nt, sizeof *th);
